@@ -1467,6 +1467,10 @@ class Interp:
             return prims.construct(ctx, self, cv.name, args, kwargs, node)
         if source.is_subclass(cv.name, 'builtins:BaseException'):
             return self.instantiate_exc(ctx, cv.name, args, kwargs, node)
+        hk = ctx.hooks.get('construct:' + cv.name)
+        if hk is not None:
+            # a contract may stand in for a constructor (listed among its assumptions)
+            return hk(ctx, self, args, kwargs, node)
         ref = ctx.new_obj('inst', cv.name)
         q, fn = source.find_method(cv.name, '__init__')
         if fn is not None:
